@@ -1,4 +1,10 @@
+mod ast;
+mod diff;
+mod enumerate;
+mod gen;
 mod obs;
+mod print;
+mod refsem;
 mod props;
 mod rng;
 mod sup;
